@@ -39,7 +39,7 @@ ASSUMPTIONS = [
     "and k*dr may fall on different sides); their count is reported",
     "force rows whose numerical-fallback stencil (h=1e-6) crosses a piecewise boundary are not compared",
 ]
-REQUIRED = {"special:root_on_grid": 8, "special:decay_tail": 8, "route:api_class": 15, "route:writePotentials": 15, "route:potable": 25,
+REQUIRED = {"special:root_on_grid": 8, "special:decay_tail": 8, "special:growth": 4, "route:api_class": 15, "route:writePotentials": 15, "route:potable": 25,
             "blocks>=2": 20, "force:numeric_fallback": 10, "reversed_labels": 5, "rewrite:2_writes": 2, "defaults:nr_given": 1, "defaults:cutoff_given": 1, "defaults:none_given": 1}
 FMT = ("f", 8)
 
@@ -89,11 +89,11 @@ def strategy(tier):
 def strata(tier):
     if tier == "quick":
         return [("one", _case(60, 1, 1), 4), ("several", _case(60, 2, 4), 5), ("large", _case(400), 1),
-                ("root_on_grid", _special("root_on_grid"), 1), ("decay_tail", _special("decay_tail"), 1), ("rewrite", _rewrite(), 1), ] + [
+                ("root_on_grid", _special("root_on_grid"), 1), ("decay_tail", _special("decay_tail"), 1), ("growth", _special("growth"), 0.5), ("rewrite", _rewrite(), 1), ] + [
             ("defaults:" + g, _case(60, 1, 2, g), 0.4) for g in ("nr", "cutoff", "none")]
     return [("defaults:" + g, _case(60, 1, 2, g), 0.4) for g in ("nr", "cutoff", "none")] + [("rewrite", _rewrite(), 1), ("one", _case(60, 1, 1), 3), ("several", _case(60, 2, 4), 3), ("medium", _case(400), 3),
             ("large", _case(5000, 1, 2), 1), ("root_on_grid", _special("root_on_grid"), 1),
-            ("decay_tail", _special("decay_tail"), 1)]
+            ("decay_tail", _special("decay_tail"), 1), ("growth", _special("growth"), 0.5)]
 
 
 def budget(tier):
